@@ -804,6 +804,7 @@ func runC07(r *Run) {
 	gws := startGateway(c07Gateway())
 	defer gws.close()
 	r.TierRan("api")
+	legacyDrainWait = 15 * time.Millisecond // many tunnels at once: give the IN handler time to reach its Drain
 	rounds := r.N(36, 600)
 	maxN := r.N(12, 64)
 	for round := 0; round < rounds; round++ {
@@ -820,6 +821,7 @@ func runC07(r *Run) {
 			spec = genC07Storm(r.Seed, round, r.N(8, 24), r.N(100, 300), true)
 		}
 		rd := setupC07Round(spec, gws, idp, -1)
+		r.Breadcrumb(spec.String())
 		rd.run()
 		obs := map[int]string{}
 		for _, l := range rd.live {
@@ -833,6 +835,7 @@ func runC07(r *Run) {
 		} else {
 			r.Dist("drivers:one")
 		}
+		var again map[int]bool
 		for _, l := range rd.live {
 			r.Count(fmt.Sprintf("%d/%d/%d", r.Seed, round, l.t.idx))
 			r.Dist("transport:" + l.t.kind)
@@ -867,6 +870,28 @@ func runC07(r *Run) {
 			}
 			// 2. correspondence with the model, classified by running the tunnel alone in a fresh process
 			if obs[l.t.idx] != exp[l.t.idx] {
+				// once more, the same round: a difference that comes from the harness's own timing (the
+				// legacy IN handler discards whatever its first read returns, see dialLegacyIn) does not repeat
+				if again == nil {
+					rd.closeAll()
+					rd2 := setupC07Round(spec, gws, idp, -1)
+					rd2.run()
+					o2 := map[int]string{}
+					for _, l2 := range rd2.live {
+						o2[l2.t.idx] = rd2.observed(l2)
+					}
+					e2, _ := c07Expected(strings.TrimPrefix(r.Oracle([]string{rd2.oracleLine()})[0], "log="), rd2.live)
+					again = map[int]bool{}
+					for _, l2 := range rd2.live {
+						again[l2.t.idx] = o2[l2.t.idx] != e2[l2.t.idx]
+					}
+					rd2.closeAll()
+				}
+				if !again[l.t.idx] {
+					r.Inconclusive()
+					r.Note(fmt.Sprintf("round %d tunnel %d: a difference from the model did not repeat when the round was run again (harness timing)", round, l.t.idx))
+					continue
+				}
 				alone := c07RunAlone(r, spec, l.t.idx)
 				rep := spec.String() + fmt.Sprintf("tunnel %d\n  in the mix : %s\n  model      : %s\n  alone      : %s\n  note       : %s\n", l.t.idx, c07Short(obs[l.t.idx]), c07Short(exp[l.t.idx]), c07Short(alone), l.broken)
 				if alone == obs[l.t.idx] {
@@ -954,18 +979,19 @@ func c07RunAlone(r *Run, spec *c07Spec, idx int) string {
 func runC07Alone(r *Run) {
 	var round, n, idx, b int
 	fmt.Sscanf(os.Getenv("VERIF_C07_ALONE"), "%d:%d:%d:%d", &round, &n, &idx, &b)
+	legacyDrainWait = 15 * time.Millisecond
 	idp := setupSecurity()
 	gws := startGateway(c07Gateway())
 	defer gws.close()
 	// regenerate the same round: the tunnel count is forced to the recorded one
 	spec := genC07Spec(r.Seed, round, n, b == 1)
-	if idx >= len(spec.tuns) {
-		fmt.Println("ALONE cannot-rebuild")
-		return
-	}
 	if st := os.Getenv("VERIF_C07_STORM"); st != "" {
 		m, _ := strconv.Atoi(st)
 		spec = genC07Storm(r.Seed, round, n, m, os.Getenv("VERIF_C07_STALL") == "1")
+	}
+	if idx >= len(spec.tuns) {
+		fmt.Println("ALONE cannot-rebuild")
+		return
 	}
 	rd := setupC07Round(spec, gws, idp, idx)
 	rd.run()
